@@ -141,21 +141,24 @@ def stock_case(sc):
     As = np.array(matrix(eig.As))
     mu = np.asarray(eig.mu)
     mu_ref = np.linalg.eigvals(As_ref)
-    def close_sets(a, b):
-        if len(a) != len(b):
+    def spectrum_ok(mus, A):
+        """every reported value is an eigenvalue of A (smallest singular value of A - mu I vanishes: robust for defective /
+        clustered eigenvalues, which a value-by-value comparison of two solver runs is not), there are as many as states, and
+        they add up to the trace"""
+        if len(mus) != A.shape[0]:
             return False
-        b = list(b)
-        for v in a:
-            j = int(np.argmin([abs(v - w) for w in b]))
-            if abs(v - b[j]) > 1e-5 * (1 + abs(v)):
+        scale = max(1.0, float(np.linalg.norm(A, 2)))
+        eye = np.eye(A.shape[0])
+        for v in mus:
+            smin = np.linalg.svd(A - v * eye, compute_uv=False)[-1]
+            if smin > 1e-7 * scale:
                 return False
-            b.pop(j)
-        return True
+        return bool(abs(np.sum(mus) - np.trace(A)) <= 1e-6 * scale * max(1, A.shape[0]) ** 0.5)
     pf = np.asarray(eig.pfactors)
     tol = eig.config.tol
     rec.update(n=int(dae.n), nzero_T=int(len(z)), shape_ok=bool(As.shape == As_ref.shape),
                as_ok=bool(As.shape == As_ref.shape and np.allclose(As, As_ref, rtol=1e-6, atol=1e-8)),
-               eig_ok=bool(close_sets(mu, mu_ref)), count_ok=bool(len(mu) == len(d)),
+               eig_ok=bool(spectrum_ok(mu, As_ref)), count_ok=bool(len(mu) == len(d)),
                names_ok=bool(list(eig.x_name) == [dae.x_name[i] for i in d]),
                counts_partition=bool(eig.n_positive + eig.n_zeros + eig.n_negative == len(mu)),
                counts_ok=bool((eig.n_positive, eig.n_zeros, eig.n_negative) ==
